@@ -166,9 +166,22 @@ func buildSpine(w *World, sc *Scenario) ([]*Node, error) {
 
 // faultOne: all fault variants of one transition from node `from`.
 func faultOne(run *core.Run, sc *Scenario, w *World, from *Node, slot uint64, ch Choice, st *FaultStats) {
+	faultOneMode(run, sc, w, from, slot, ch, st, true)
+	if !ch.Skip {
+		// the caller that does not ask for the state-root check (block production, replay of trusted blocks) must
+		// see the faults as well: nothing downstream would reveal the incomplete work
+		faultOneMode(run, sc, w, from, slot, ch, st, false)
+	}
+}
+
+func faultOneMode(run *core.Run, sc *Scenario, w *World, from *Node, slot uint64, ch Choice, st *FaultStats, validate bool) {
+	mode := "validateResult=true"
+	if !validate {
+		mode = "validateResult=false"
+	}
 	rep := func(sig, msg string) {
-		run.Report("C18/"+sig, fmt.Sprintf("scenario %s, transition to slot %d (%s): %s", sc.Name, slot, ch, msg),
-			map[string]interface{}{"engine": "faultx", "scenario": sc.Name, "slot": slot, "choice": ch.String()})
+		run.Report("C18/"+sig, fmt.Sprintf("scenario %s, transition to slot %d (%s, %s): %s", sc.Name, slot, ch, mode, msg),
+			map[string]interface{}{"engine": "faultx", "scenario": sc.Name, "slot": slot, "choice": ch.String(), "mode": mode})
 	}
 	var sb *refspec.SignedBlock
 	if !ch.Skip {
@@ -182,7 +195,7 @@ func faultOne(run *core.Run, sc *Scenario, w *World, from *Node, slot uint64, ch
 		if ch.Skip {
 			return n.SlotsReal(ctx, slot)
 		}
-		return n.ApplyReal(ctx, sb, true)
+		return n.ApplyReal(ctx, sb, validate)
 	}
 	atomic.AddInt64(&st.Transitions, 1)
 	// plain run
@@ -239,8 +252,20 @@ func faultOne(run *core.Run, sc *Scenario, w *World, from *Node, slot uint64, ch
 				}
 			}
 		}
-		if E == 0 {
+		// is_execution_enabled: a pre-merge block with the default payload is the one case without engine calls
+		enabled := true
+		{
+			adv := from.Ref.Copy(c)
+			if adv.Slot < sb.Message.Slot {
+				w.Env.ProcessSlots(adv, sb.Message.Slot, nil)
+			}
+			enabled = w.Env.IsExecutionEnabled(adv, &sb.Message)
+		}
+		if E == 0 && enabled {
 			rep("engine-not-consulted", "a block with an execution payload was accepted without consulting the execution engine")
+		}
+		if E != 0 && !enabled {
+			rep("engine-consulted-before-the-merge", fmt.Sprintf("a pre-merge block with the default payload made %d engine calls", E))
 		}
 		hasNotify := false
 		for _, call := range plainCalls {
@@ -260,7 +285,7 @@ func faultOne(run *core.Run, sc *Scenario, w *World, from *Node, slot uint64, ch
 			got[call.Method]++
 		}
 		for _, m := range want {
-			if E > 0 && got[m] != 1 {
+			if enabled && got[m] != 1 {
 				rep("engine-query-set/"+m, fmt.Sprintf("the specification consults the engine with %v for every %s payload; %q was made %d times (calls: %v, %d blob commitments)", want, refspec.ForkNames[sb.Message.F], m, got[m], methods(plainCalls), len(sb.Message.Body.BlobKZGCommitments)))
 			}
 		}
